@@ -87,9 +87,9 @@ def main():
     pid = args.property
     tier = args.tier if args.tier in ("quick", "thorough") else "quick"
     if tier == "thorough":
-        # second back end: per task, every 5th VC that z3 refutes is re-checked by cvc5 (at most 80 per task)
-        os.environ.setdefault("PYVC_CVC5", "80")
-        os.environ.setdefault("PYVC_CVC5_EVERY", "5")
+        # second back end: per task, every 3rd VC that z3 refutes is re-checked by cvc5 (at most 150 per task)
+        os.environ.setdefault("PYVC_CVC5", "150")
+        os.environ.setdefault("PYVC_CVC5_EVERY", "3")
     t0 = time.time()
     try:
         from props import registry
